@@ -40,6 +40,9 @@ pub struct RModel {
     pub pressing: bool,
     pub just_pressed: bool,
     pub just_released: bool,
+    /// upper bounds on the reports still owed (an implementation may report every unread change, not only the last)
+    pub owed_pressed: u8,
+    pub owed_released: u8,
     pub last_value_bits: u32,
     pub prev_run_len: usize, // length of the previous (ended) run
     pub tap_before: bool, // a run shorter than l ended since the last press
@@ -56,10 +59,75 @@ pub struct RibM<const C: usize> {
     pub deep_value: bool,
     pub max_presses: u32,
     pub edge_polls: bool,
+    /// how many of the newest samples of the window do not contribute to value() (found behaviourally)
+    pub excluded: usize,
+}
+
+const OWED_CAP: u8 = 3;
+
+/// "true exactly once per change": `latch` is the latch reading (a change not yet read is reported by the next read,
+/// several unread changes merge), `owed` the counting reading (every change is reported by one read). Both are
+/// accepted: true needs at least one change owed, false needs the latch to be clear or already served; after a
+/// false nothing is owed any more.
+fn edge_read(got: bool, latch: &mut bool, owed: &mut u8, name: &'static str, call: &str, fnd: &mut Vec<Finding>, out: &mut StepOut) {
+    out.count("edge_polls");
+    if *latch {
+        out.count("edge_polls_expected_true");
+    }
+    if got {
+        if *owed == 0 {
+            fnd.push(("C15", if name == "just-pressed" { "spurious-just-pressed" } else { "spurious-just-released" }, format!("{} returned true although every change of finger_is_pressing() has already been reported", call)));
+        } else if *owed < OWED_CAP {
+            *owed -= 1;
+        }
+        *latch = false;
+    } else {
+        if *latch {
+            fnd.push(("C15", if name == "just-pressed" { "missing-just-pressed" } else { "missing-just-released" }, format!("{} returned false although finger_is_pressing() changed since the last read", call)));
+        }
+        *latch = false;
+        *owed = 0;
+    }
 }
 
 fn mk<const C: usize>(cfg: &RibCfg) -> RibbonController<C> {
     RibbonController::<C>::new(cfg.fs as f32, cfg.softpot, cfg.dropper, cfg.pullup)
+}
+
+/// The finger-lift allowance in samples, found behaviourally on a correctly sized controller: the largest j such that
+/// replacing the newest j samples of a just-completed capture leaves value() unchanged (binary search; the statement
+/// fixes neither the count nor a rounding direction). Cached per (capacity, configuration).
+pub fn excluded_newest<const C: usize>(cfg: &RibCfg, l: usize) -> usize {
+    use std::collections::HashMap;
+    use std::sync::{Mutex, OnceLock};
+    static CACHE: OnceLock<Mutex<HashMap<(usize, u32, u32, u32, u32), usize>>> = OnceLock::new();
+    let key = (C, cfg.fs, cfg.softpot.to_bits(), cfg.dropper.to_bits(), cfg.pullup.to_bits());
+    if let Some(d) = CACHE.get_or_init(|| Mutex::new(HashMap::new())).lock().unwrap().get(&key) {
+        return *d;
+    }
+    let b = cfg.boundary();
+    let value_with = |j: usize| -> u32 {
+        let mut r = mk::<C>(cfg);
+        for i in 0..l {
+            r.poll(if i + j >= l { 0.7 * b } else { 0.3 * b });
+        }
+        r.value().to_bits()
+    };
+    let v0 = value_with(0);
+    let (mut lo, mut hi) = (0usize, C.saturating_sub(1)); // invariant: value_with(lo) == v0
+    if value_with(hi) == v0 {
+        lo = hi;
+    }
+    while lo < hi {
+        let mid = (lo + hi + 1) / 2;
+        if value_with(mid) == v0 {
+            lo = mid;
+        } else {
+            hi = mid - 1;
+        }
+    }
+    CACHE.get().unwrap().lock().unwrap().insert(key, lo);
+    lo
 }
 
 /// number of in-range samples a fresh controller needs before it reports a press
@@ -83,19 +151,17 @@ impl<const C: usize> RibM<C> {
             cfg,
             rib,
             hist: Vec::new(),
-            m: RModel { l, run: Vec::new(), run_len: 0, pressing: false, just_pressed: false, just_released: false, last_value_bits: v0, prev_run_len: 0, tap_before: false, presses: 0 },
+            m: RModel { l, run: Vec::new(), run_len: 0, pressing: false, just_pressed: false, just_released: false, owed_pressed: 0, owed_released: 0, last_value_bits: v0, prev_run_len: 0, tap_before: false, presses: 0 },
             levels: std::sync::Arc::new(levels),
             do_value,
             deep_value,
             max_presses,
             edge_polls: !do_value,
+            excluded: excluded_newest::<C>(&cfg, l),
         })
     }
     fn discard(&self) -> usize {
-        // the finger-lift allowance in samples: the controller's own time constant (read at 100 kHz through the
-        // snapshot, where the product is exact) applied to this sample rate with truncating integer arithmetic
-        let usec = RibbonController::<2>::new(100_000.0, 20e3, 820.0, 1e6).verif_snapshot().num_to_discard_at_end as u64 * 10;
-        (self.cfg.fs as u64 * usec / 1_000_000) as usize
+        self.excluded
     }
     /// value of a fresh controller fed only `settle` neutral samples and then `window`
     fn canonical_value(&self, window: &[f32]) -> f32 {
@@ -120,9 +186,11 @@ impl<const C: usize> RibM<C> {
         let mean = contrib.iter().map(|x| *x as f64).sum::<f64>() / ntake as f64;
         let k = self.cfg.k();
         let c = |m: f64| m - (m - m * m) * k;
-        let tau = (C as f64 + 8.0) * f32::EPSILON as f64;
         let mn = contrib.iter().cloned().fold(f32::INFINITY, f32::min) as f64;
         let mx = contrib.iter().cloned().fold(f32::NEG_INFINITY, f32::max) as f64;
+        // rounding of a sum of C non-negative terms is relative to the sum: (C + 8) * 2^-23 of the largest contributor,
+        // with an absolute floor of 2^-22 (room for a fixed-point accumulator)
+        let tau = ((C as f64 + 8.0) * f32::EPSILON as f64 * mx.abs()).max((2.0f64).powi(-22));
         let vf = v as f64;
         out.count("values_checked_while_pressed");
         if !(vf >= 0.0 && vf <= 1.0) {
@@ -223,6 +291,7 @@ impl<const C: usize> Machine for RibM<C> {
                 self.m.pressing = self.m.run_len >= self.m.l;
                 if self.m.pressing && !was {
                     self.m.just_pressed = true;
+                    self.m.owed_pressed = (self.m.owed_pressed + 1).min(OWED_CAP);
                     self.m.presses += 1;
                     out.count("presses_expected");
                     if self.m.tap_before {
@@ -232,6 +301,7 @@ impl<const C: usize> Machine for RibM<C> {
                 }
                 if !self.m.pressing && was {
                     self.m.just_released = true;
+                    self.m.owed_released = (self.m.owed_released + 1).min(OWED_CAP);
                     out.count("releases_expected");
                 }
                 let got = self.rib.finger_is_pressing();
@@ -261,27 +331,11 @@ impl<const C: usize> Machine for RibM<C> {
             }
             ROp::JustPressed => {
                 let got = self.rib.finger_just_pressed();
-                let exp = self.m.just_pressed;
-                self.m.just_pressed = false;
-                out.count("edge_polls");
-                if exp {
-                    out.count("edge_polls_expected_true");
-                }
-                if got != exp {
-                    fnd.push(("C15", if got { "spurious-just-pressed" } else { "missing-just-pressed" }, format!("finger_just_pressed() returned {} expected {}", got, exp)));
-                }
+                edge_read(got, &mut self.m.just_pressed, &mut self.m.owed_pressed, "just-pressed", "finger_just_pressed()", &mut fnd, out);
             }
             ROp::JustReleased => {
                 let got = self.rib.finger_just_released();
-                let exp = self.m.just_released;
-                self.m.just_released = false;
-                out.count("edge_polls");
-                if exp {
-                    out.count("edge_polls_expected_true");
-                }
-                if got != exp {
-                    fnd.push(("C15", if got { "spurious-just-released" } else { "missing-just-released" }, format!("finger_just_released() returned {} expected {}", got, exp)));
-                }
+                edge_read(got, &mut self.m.just_released, &mut self.m.owed_released, "just-released", "finger_just_released()", &mut fnd, out);
             }
         }
         out.obs = (self.rib.finger_is_pressing() as u64) << 32 | self.rib.value().to_bits() as u64;
@@ -305,7 +359,7 @@ impl<const C: usize> Machine for RibM<C> {
         }
         // model
         h.word(self.m.run_len as u64);
-        h.word((self.m.pressing as u64) | (self.m.just_pressed as u64) << 1 | (self.m.just_released as u64) << 2 | (self.m.presses.min(self.max_presses) as u64) << 8);
+        h.word((self.m.pressing as u64) | (self.m.just_pressed as u64) << 1 | (self.m.just_released as u64) << 2 | (self.m.presses.min(self.max_presses) as u64) << 8 | (self.m.owed_pressed as u64) << 40 | (self.m.owed_released as u64) << 48);
         h.word(self.m.last_value_bits as u64);
         h.word(self.m.tap_before as u64);
         if self.do_value {
@@ -329,7 +383,7 @@ impl<const C: usize> Machine for RibM<C> {
                 }
             }
         }
-        RibM { cfg: self.cfg, rib, hist: self.hist.clone(), m: self.m.clone(), levels: self.levels.clone(), do_value: self.do_value, deep_value: self.deep_value, max_presses: self.max_presses, edge_polls: self.edge_polls }
+        RibM { cfg: self.cfg, rib, hist: self.hist.clone(), m: self.m.clone(), levels: self.levels.clone(), do_value: self.do_value, deep_value: self.deep_value, max_presses: self.max_presses, edge_polls: self.edge_polls, excluded: self.excluded }
     }
     fn op_str(op: &ROp) -> String {
         match op {
@@ -403,6 +457,8 @@ macro_rules! with_capacity {
             96000 => $f::<{ sample_rate_to_capacity(96000) }>($($args),*),
             48000 => $f::<{ sample_rate_to_capacity(48000) }>($($args),*),
             192000 => $f::<{ sample_rate_to_capacity(192000) }>($($args),*),
+            17000 => $f::<{ sample_rate_to_capacity(17000) }>($($args),*),
+            17067 => $f::<{ sample_rate_to_capacity(17067) }>($($args),*),
             _ => panic!("unsupported ribbon sample rate {}", $fs),
         }
     };
@@ -556,6 +612,113 @@ fn piecewise_c<const C: usize>(ctx: &Ctx, rep: &mut Report, cfg: RibCfg, stride:
     rep.subruns.push(json!({"engine": "E2-sweep", "what": "piecewise-constant presses with <= 2 level switches at every pair of positions, 4 kinds of earlier activity", "fs": cfg.fs, "capacity": C, "press_needs": l, "positions": pos.len(), "sequences": n}));
 }
 
+/// E2: presses at the ends of the ribbon and slow slides. (a) constant presses at levels from 0 to one ulp below the
+/// boundary (both ends of the range, where dead zones and snapping would sit); (b) a press that holds, then slides by a
+/// tiny step per sample (1e-7 ... 1e-3 of the range, up and down), then holds again: between two polls the window mean
+/// moves by far less than the summation tolerance, so a value that is only refreshed on "enough" change shows.
+/// value() is judged on every `lattice`-th pressed poll and on the first and last three.
+fn value_scripts_c<const C: usize>(ctx: &Ctx, rep: &mut Report, cfg: RibCfg, lattice: usize, props: &[&'static str]) {
+    let probe = match RibM::<C>::new(cfg, vec![], true, false, u32::MAX) {
+        Ok(m) => m,
+        Err(_) => return,
+    };
+    let l = probe.m.l;
+    let b = cfg.boundary();
+    let below = f32::from_bits(b.to_bits() - 1);
+    let mut jobs: Vec<Vec<f32>> = Vec::new();
+    let mut fr: Vec<f32> = vec![0.0, 1.0e-6, 1.0e-4, 0.001, 0.003, 0.01, 0.03, 0.97, 0.99, 0.995, 0.999, 0.9999];
+    for i in 1..24 {
+        fr.push(i as f32 / 24.0);
+    }
+    let mut levels: Vec<f32> = fr.iter().map(|f| f * b).collect();
+    levels.extend([f32::from_bits(1), f32::MIN_POSITIVE, below]);
+    for x in levels {
+        let mut v = vec![x; l + 2];
+        v.extend([1.0, x, x]);
+        jobs.push(v);
+    }
+    let nramp = (2 * C + 20).min(6000);
+    for start in [0.2f32, 0.6] {
+        for delta in [1.0e-7f32, 1.0e-6, 1.0e-5, 1.0e-4, 1.0e-3] {
+            for sign in [1.0f32, -1.0] {
+                let mut v = vec![start * b; l];
+                let mut x = start * b;
+                for _ in 0..nramp {
+                    x = (x + sign * delta * b).clamp(0.0, below);
+                    v.push(x);
+                }
+                v.extend(std::iter::repeat(x).take(C + 3));
+                v.push(1.0);
+                jobs.push(v);
+            }
+        }
+    }
+    let jr = &jobs;
+    let pv: Vec<&'static str> = props.to_vec();
+    let pr = &pv;
+    par_ranges(ctx, rep, jobs.len() as u64, jobs.len() as u64, |_, lo_i, hi_i, lc| {
+        for j in lo_i..hi_i {
+            let samples = &jr[j as usize];
+            let mut m = match RibM::<C>::new(cfg, vec![], true, false, u32::MAX) {
+                Ok(m) => m,
+                Err(_) => return,
+            };
+            let last_pressed = samples.iter().rposition(|x| *x >= b).unwrap_or(samples.len());
+            for (n, x) in samples.iter().enumerate() {
+                let k = n + 1;
+                m.do_value = k < l + 4 || k + 4 > last_pressed || (k - l) % lattice == 0 || k > last_pressed;
+                let mut out = StepOut::new();
+                let r = std::panic::catch_unwind(std::panic::AssertUnwindSafe(|| m.apply(&ROp::Poll(*x), &mut out)));
+                if !m.do_value && m.m.pressing {
+                    m.m.last_value_bits = m.rib.value().to_bits();
+                }
+                for (kk, c) in out.counts {
+                    lc.count(kk, c);
+                }
+                let script = || -> Vec<String> {
+                    let mut v: Vec<String> = Vec::new();
+                    let mut i = 0;
+                    while i <= n {
+                        let mut e = i;
+                        while e + 1 <= n && samples[e + 1] == samples[i] {
+                            e += 1;
+                        }
+                        v.push(if e > i { format!("poll:{:?}*{}", samples[i], e - i + 1) } else { format!("poll:{:?}", samples[i]) });
+                        i = e + 1;
+                    }
+                    v
+                };
+                if let Err(e) = r {
+                    for p in pr.iter() {
+                        lc.violation(Violation { prop: p, class: "panic".into(), detail: format!("the real code panicked: {}", panic_msg(&e)), machine: "ribbon", config: m.config(), ops: script() });
+                    }
+                    break;
+                }
+                let mut stop = false;
+                for f in out.flags {
+                    if pr.contains(&f.prop) {
+                        let already = lc.per_class.get(&f.class).copied().unwrap_or(0);
+                        let sc = if already < PER_CLASS_CAP { script() } else { Vec::new() };
+                        lc.violation(Violation { prop: f.prop, class: f.class, detail: f.detail, machine: "ribbon", config: m.config(), ops: sc });
+                        stop = true;
+                    }
+                }
+                if stop {
+                    break;
+                }
+            }
+            lc.count("end_level_and_slow_slide_presses", 1);
+        }
+    });
+    let n = jobs.len() as u64;
+    rep.evaluations += n;
+    rep.traces += n;
+    let polls: u64 = jobs.iter().map(|v| v.len() as u64).sum();
+    rep.states += polls;
+    rep.transitions += polls;
+    rep.subruns.push(json!({"engine": "E2-sweep", "what": "constant presses at the ends of the range and slow slides", "fs": cfg.fs, "capacity": C, "press_needs": l, "sequences": n, "value_judged_every": lattice}));
+}
+
 /// one press held for more than 2^16 polls (counters of 8 / 16 bits inside a controller wrap in that time), samples
 /// following a golden-ratio sawtooth so that the window contents keep changing; edge polls after every
 /// sample when `with_edges`
@@ -627,39 +790,69 @@ fn long_press_c<const C: usize>(ctx: &Ctx, rep: &mut Report, cfg: RibCfg, with_v
     rep.subruns.push(json!({"engine": "E2-sweep", "what": "one press held for 2^16 + polls", "fs": cfg.fs, "capacity": C, "polls": total, "edge_polls_after_every_sample": !with_value}));
 }
 
-/// the settling and finger-lift sample counts of the controller for every integer sample rate (read through the
-/// snapshot hook; they do not depend on the buffer capacity) against the documented 1 ms / 2 ms, and against the
-/// public capacity helper (capacity = 15 ms worth of samples + finger-lift samples + 1)
-fn rate_counts_sweep(ctx: &Ctx, rep: &mut Report, prop: &'static str) {
-    // the three time constants (settling, finger-lift, capture) are read off the controller and the public capacity
-    // helper at 100 kHz, where (rate x microseconds) / 10^6 is exact; every other rate must then be consistent with
-    // them (truncating integer arithmetic, as the capacity helper does)
-    let r0 = RibbonController::<2>::new(100_000.0, 20e3, 820.0, 1e6).verif_snapshot();
-    let fall_usec = r0.num_to_ignore_up_front as u64 * 10;
-    let rise_usec = r0.num_to_discard_at_end as u64 * 10;
-    let cap0 = sample_rate_to_capacity(100_000) as u64;
-    if cap0 < r0.num_to_discard_at_end as u64 + 1 {
-        rep.machinery("capacity helper smaller than the finger-lift allowance at 100 kHz".into());
-        return;
+fn probe_counts_c<const C: usize>(cfg: RibCfg) -> Option<(usize, usize)> {
+    let l = calibrate::<C>(&cfg)?;
+    if l < C {
+        return None;
     }
-    let capture_usec = (cap0 - 1 - r0.num_to_discard_at_end as u64) * 10;
-    par_ranges(ctx, rep, 192_000 - 100 + 1, 256, |_, lo, hi, lc| {
-        for i in lo..hi {
-            let fs = (100 + i) as u32;
-            let r = RibbonController::<2>::new(fs as f32, 20e3, 820.0, 1e6);
-            let s = r.verif_snapshot();
-            let ignore = (fs as u64 * fall_usec / 1_000_000) as usize;
-            let discard = (fs as u64 * rise_usec / 1_000_000) as usize;
-            let cap = sample_rate_to_capacity(fs);
-            lc.count("sample_rates_checked", 1);
-            let cap_ok = cap == (fs as u64 * capture_usec / 1_000_000) as usize + discard + 1;
-            let bad = if prop == "C15" { s.num_to_ignore_up_front != ignore || !cap_ok } else { s.num_to_discard_at_end != discard || !cap_ok };
-            if bad {
-                lc.violation(Violation { prop, class: "allowance-sample-counts".into(), detail: format!("at {} Hz the controller skips {} settling samples and excludes {} newest samples; its own time constants ({} us, {} us, read at 100 kHz) give {} and {} (capacity helper: {})", fs, s.num_to_ignore_up_front, s.num_to_discard_at_end, fall_usec, rise_usec, ignore, discard, cap), machine: "ribbon", config: json!({"fs": fs, "softpot": 20e3, "dropper": 820.0, "pullup": 1e6}), ops: vec!["# counts are read through the verif_snapshot hook".into()] });
+    Some((l - C, excluded_newest::<C>(&cfg, l)))
+}
+
+const ALL_RATES: [u32; 15] = [100, 334, 500, 1000, 2000, 3500, 4000, 8000, 10000, 17000, 17067, 22050, 48000, 96000, 192000];
+
+/// The settling skip (C15) and the finger-lift allowance (C16) are times; the statements fix neither their length nor
+/// how a time becomes a sample count. What they do imply is that ONE time, turned into counts by ONE rule, is behind
+/// the counts at every sample rate. The counts are measured behaviourally on correctly sized controllers at the 15
+/// instantiated rates (samples before the first press minus the capacity; newest samples without influence on the
+/// value) and must be explained by count = floor(fs*T) + c or ceil(fs*T) + c (c in {-1, 0}, not below 0) for some T.
+fn allowance_consistency(_ctx: &Ctx, rep: &mut Report, prop: &'static str) {
+    let mut counts: Vec<(u32, usize)> = Vec::new();
+    for fs in ALL_RATES {
+        let cfg = RibCfg { fs, softpot: 20e3, dropper: 820.0, pullup: 1e6 };
+        let r = std::panic::catch_unwind(|| with_capacity!(fs, probe_counts_c, cfg));
+        match r {
+            Ok(Some((skip, excl))) => counts.push((fs, if prop == "C15" { skip } else { excl })),
+            Ok(None) => {} // never presses / presses early: reported by the calibration checks
+            Err(e) => {
+                rep.violation(Violation { prop, class: "panic".into(), detail: format!("the real code panicked while a fresh controller at {} Hz was pressed: {}", fs, panic_msg(&e)), machine: "ribbon", config: json!({"fs": fs, "softpot": 20e3, "dropper": 820.0, "pullup": 1e6}), ops: vec!["poll:0.4*64".into()] });
+                return;
             }
         }
-    });
-    rep.evaluations += 192_000 - 100 + 1;
+        rep.count("sample_rates_checked", 1);
+    }
+    let mut explained = false;
+    'rules: for ceil in [false, true] {
+        for c in [0i64, -1] {
+            // intersect the intervals of T (in seconds) that each rate allows: lo < T*fs... kept as open/closed-agnostic bounds
+            let (mut lo, mut hi) = (0.0f64, f64::INFINITY);
+            for &(fs, n) in &counts {
+                let n = n as i64;
+                let f = fs as f64;
+                // count = max(0, round_rule(fs*T) + c)
+                let base = n - c; // value of round_rule(fs*T) if not clamped
+                let (l1, h1) = if n == 0 {
+                    // round_rule(fs*T) <= -c
+                    (0.0, if ceil { (-c) as f64 / f } else { (-c + 1) as f64 / f })
+                } else if ceil {
+                    ((base - 1) as f64 / f, base as f64 / f)
+                } else {
+                    (base as f64 / f, (base + 1) as f64 / f)
+                };
+                lo = lo.max(l1);
+                hi = hi.min(h1);
+            }
+            // floor: [lo, hi) ; ceil: (lo, hi] : non-empty iff lo < hi
+            if lo < hi {
+                explained = true;
+                rep.maxf(if prop == "C15" { "settling_time_explaining_all_counts_us" } else { "finger_lift_time_explaining_all_counts_us" }, lo.max(0.0) * 1.0e6);
+                break 'rules;
+            }
+        }
+    }
+    if !explained {
+        rep.violation(Violation { prop, class: "allowance-sample-counts".into(), detail: format!("the {} measured on fresh controllers at the instantiated sample rates, {:?} (rate, samples), are not floor(fs*T)+c or ceil(fs*T)+c for any single time T and c in {{-1, 0}}", if prop == "C15" { "numbers of settling samples skipped before a press" } else { "numbers of newest samples excluded from the value" }, counts), machine: "ribbon", config: json!({"fs": 3500, "softpot": 20e3, "dropper": 820.0, "pullup": 1e6}), ops: vec!["# counts measured behaviourally: polls until the first press minus the capacity; newest samples that do not influence value()".into()] });
+    }
+    rep.evaluations += ALL_RATES.len() as u64;
 }
 
 /// E2 for the largest capacities: linear scripts through the press-detection model (no forks): an idle prefix of
@@ -672,18 +865,25 @@ fn scripted_presses_c<const C: usize>(ctx: &Ctx, rep: &mut Report, cfg: RibCfg, 
     };
     let l = probe.m.l;
     let b = cfg.boundary();
-    let mut jobs: Vec<(usize, usize, usize)> = Vec::new(); // idle prefix, gap, extra
+    let mut jobs: Vec<(usize, usize, usize)> = Vec::new(); // idle prefix, gap, level pattern (0: one level, 1: far-apart levels in turn)
     for k in [0usize, 1, 2, 3, 5, 7, 64, 1023, 1024, 1025] {
         for g in [1usize, 2, 3, 17] {
             jobs.push((k, g, 0));
+            if g <= 2 && (k < 3 || k == 1024) {
+                jobs.push((k, g, 1));
+            }
         }
+    }
+    // left untouched for longer than a 16-bit counter of polls can hold, then pressed
+    for k in [65_534usize, 65_535, 65_536, 65_537, 70_000] {
+        jobs.push((k, 1, (k % 2) as usize));
     }
     let jr = &jobs;
     let pv: Vec<&'static str> = props.to_vec();
     let pr = &pv;
     par_ranges(ctx, rep, jobs.len() as u64, jobs.len() as u64, |_, lo, hi, lc| {
         for j in lo..hi {
-            let (k, g, _) = jr[j as usize];
+            let (k, g, pattern) = jr[j as usize];
             let mut m = match RibM::<C>::new(cfg, vec![], false, false, u32::MAX) {
                 Ok(m) => m,
                 Err(_) => return,
@@ -695,10 +895,25 @@ fn scripted_presses_c<const C: usize>(ctx: &Ctx, rep: &mut Report, cfg: RibCfg, 
             'script: for (op, n) in ops {
                 for i in 0..n {
                     let mut out = StepOut::new();
+                    // pattern 1: the finger slides far between consecutive samples (the level changes, the run goes on)
+                    let op = match op {
+                        ROp::Poll(v) if v < b && pattern == 1 => ROp::Poll([0.04 * b, 0.96 * b, 0.37 * b][i % 3]),
+                        o => o,
+                    };
                     let r = std::panic::catch_unwind(std::panic::AssertUnwindSafe(|| m.apply(&op, &mut out)));
                     // poll the edges around the moments a press may be reported
                     let near = n - i <= 4 || i < 2;
-                    let script = |done: &Vec<String>| { let mut s = done.clone(); s.push(format!("{}*{}", RibM::<C>::op_str(&op), i + 1)); s };
+                    let script = |done: &Vec<String>| {
+                        let mut s = done.clone();
+                        if pattern == 1 && matches!(op, ROp::Poll(v) if v < b) {
+                            for q in 0..=i {
+                                s.push(format!("poll:{:?}", [0.04 * b, 0.96 * b, 0.37 * b][q % 3]));
+                            }
+                        } else {
+                            s.push(format!("{}*{}", RibM::<C>::op_str(&op), i + 1));
+                        }
+                        s
+                    };
                     if let Err(e) = r {
                         for p in pr.iter() {
                             lc.violation(Violation { prop: p, class: "panic".into(), detail: format!("the real code panicked: {}", panic_msg(&e)), machine: "ribbon", config: m.config(), ops: script(&done) });
@@ -724,9 +939,21 @@ fn scripted_presses_c<const C: usize>(ctx: &Ctx, rep: &mut Report, cfg: RibCfg, 
                         break 'script;
                     }
                 }
-                done.push(format!("{}*{}", RibM::<C>::op_str(&op), n));
+                if pattern == 1 && matches!(op, ROp::Poll(v) if v < b) {
+                    for q in 0..n {
+                        done.push(format!("poll:{:?}", [0.04 * b, 0.96 * b, 0.37 * b][q % 3]));
+                    }
+                } else {
+                    done.push(format!("{}*{}", RibM::<C>::op_str(&op), n));
+                }
             }
             lc.count("scripted_press_sequences", 1);
+            if pattern == 1 {
+                lc.count("scripted_press_sequences_with_far_apart_levels", 1);
+            }
+            if k > 65_000 {
+                lc.count("scripted_press_sequences_after_65536_idle_polls", 1);
+            }
         }
     });
     rep.evaluations += jobs.len() as u64;
@@ -769,7 +996,7 @@ pub fn c15(ctx: &Ctx) -> Report {
             let cfg = RibCfg { fs, softpot: 20e3, dropper: 820.0, pullup: 1e6 };
             with_capacity!(fs, long_press_c, ctx, &mut rep, cfg, false, p);
         }
-        rate_counts_sweep(ctx, &mut rep, "C15");
+        allowance_consistency(ctx, &mut rep, "C15");
         for fs in if thorough { vec![10000u32, 22050, 48000, 96000, 192000] } else { vec![10000u32, 48000, 96000, 192000] } {
             let cfg = RibCfg { fs, softpot: 20e3, dropper: 820.0, pullup: 1e6 };
             with_capacity!(fs, scripted_presses_c, ctx, &mut rep, cfg, p);
@@ -837,10 +1064,23 @@ pub fn c16(ctx: &Ctx) -> Report {
             let cfg = RibCfg { fs, softpot: 20e3, dropper: 820.0, pullup: 1e6 };
             with_capacity!(fs, long_press_c, ctx, &mut rep, cfg, true, p);
         }
-        rate_counts_sweep(ctx, &mut rep, "C16");
+        allowance_consistency(ctx, &mut rep, "C16");
         for (fs, stride) in if thorough { vec![(3500u32, 3usize), (4000, 3), (8000, 7), (22050, 40)] } else { vec![(3500u32, 9usize), (8000, 25)] } {
             let cfg = RibCfg { fs, softpot: 20e3, dropper: 820.0, pullup: 1e6 };
             with_capacity!(fs, piecewise_c, ctx, &mut rep, cfg, stride, p);
+        }
+    }
+    // the ends of the ribbon and slow slides, from the smallest capacity to the largest (>= 256 contributing samples
+    // from 17 kHz on)
+    for (ti, t) in TRIPLES.iter().enumerate() {
+        let rates: Vec<(u32, usize)> = if ti == 0 {
+            if thorough { vec![(100, 1), (500, 1), (1000, 1), (10000, 1), (17000, 7), (17067, 7), (22050, 11), (48000, 61), (96000, 127), (192000, 251)] } else { vec![(100, 1), (1000, 1), (10000, 7), (17000, 31), (17067, 31), (48000, 127), (192000, 509)] }
+        } else {
+            vec![(334, 1), (2000, 1)]
+        };
+        for (fs, lattice) in rates {
+            let cfg = RibCfg { fs, softpot: t.0, dropper: t.1, pullup: t.2 };
+            with_capacity!(fs, value_scripts_c, ctx, &mut rep, cfg, lattice, p);
         }
     }
     if thorough {
@@ -855,6 +1095,7 @@ pub fn c16(ctx: &Ctx) -> Report {
     rep.require_nonzero("piecewise_constant_presses");
     rep.require_nonzero("long_presses");
     rep.require_nonzero("sample_rates_checked");
+    rep.require_nonzero("end_level_and_slow_slide_presses");
     rep.assumptions.push("the pull-up correction is the documented estimate c(m) = m - (m - m^2)*(softpot+dropper)/pullup".into());
     rep
 }
